@@ -682,8 +682,19 @@ func runC10(s *Svc, m *spec.Method, tier string) *MethodResult {
 				continue
 			}
 			seen[spec.Canon(ev)] = true
-			if len(sp.Check(m.Result, ev, "result")) > 0 || gAmbiguous(sp, m.Result, ev) {
-				continue // the round-trip clause quantifies over results that satisfy the design
+			if gAmbiguous(sp, m.Result, ev) {
+				continue
+			}
+			if issues := sp.Check(m.Result, ev, "result"); len(issues) > 0 {
+				// the round-trip clause quantifies over results that satisfy the design; in the
+				// result-side validation cases a response that violates the design must not reach
+				// the caller of the generated client as a result
+				if m.Feat["side"] == "result" && m.Feat["valid"] != "" {
+					r.Cases++
+					r.Nontrivial++
+					c10ResultInvalid(g, m, rl, v, issues, plainP, r, true)
+				}
+				continue
 			}
 			r.Cases++
 			r.Nontrivial++
@@ -1005,6 +1016,65 @@ func c10Result(g *GRPCSvc, m *spec.Method, l *GLayout, v any, plainP any, r *Met
 		if r.Cases%7 == 1 {
 			r.sample(map[string]any{"result": spec.JSONable(sentN), "response_message": truncate(obs.RespMsg, 120), "header": mdView(obs.Header), "trailer": mdView(obs.Trailer)})
 		}
+	}
+	return sigs
+}
+
+// c10ResultInvalid: the service method returns a result that violates the design (the generated
+// server does not validate results); the generated client must reject the response before its
+// caller sees a result.
+func c10ResultInvalid(g *GRPCSvc, m *spec.Method, l *GLayout, v any, issues []spec.Issue, plainP any, r *MethodResult, report bool) []string {
+	sp := g.S.Spec
+	var herr error
+	call, obs, _, res, err, herr2 := gExchange(g, m, plainP, gReplyWith(g, m, v, &herr))
+	if report {
+		r.Execs++
+	}
+	if herr == nil {
+		herr = herr2
+	}
+	if herr != nil {
+		if report {
+			r.HarnessErr = append(r.HarnessErr, "c10 invalid result: "+herr.Error())
+		}
+		return nil
+	}
+	var sigs []string
+	fail := func(sig, what string) {
+		sigs = append(sigs, sig)
+		if report {
+			cs := c10Case(g, m, "result", v, call, obs, err)
+			cs["expected_issues"] = fmt.Sprint(issues)
+			r.violation(sig, what, cs, func() []string { return c10ResultInvalid(g, m, l, v, issues, plainP, r, false) })
+		}
+	}
+	sentN, _ := gExpressed(g, g.S.ResultType(m.Name), m.Result, v)
+	p := variedPlace(l, issues[0].Path)
+	pf := placeFeat(sp, p, attrOf(l, p, sentN))
+	if call.ServerPanic != "" {
+		fail(fmt.Sprintf("C10 panic %s %s %s", c10ValidFeat(m), pf, panicSite(call.ServerPanic)), "generated code panicked: "+call.ServerPanic)
+		return sigs
+	}
+	if call.Invoked != 1 {
+		if report {
+			r.outcome("request-not-delivered")
+		}
+		return sigs
+	}
+	if err == nil {
+		if report {
+			r.outcome("invalid-result-accepted")
+		}
+		got := "nil"
+		if res != nil {
+			got = spec.Canon(g.GetValue(reflect.ValueOf(res), m.Result))
+		}
+		fail(fmt.Sprintf("C10 invalid-result-accepted %s %s rule=%s", c10ValidFeat(m), pf, issueRule(issues)),
+			fmt.Sprintf("the service returned %s, which violates %v; the generated client handed its caller the result %s without an error", spec.Canon(sentN), issues, got))
+		return sigs
+	}
+	if report {
+		r.outcome("invalid-result-rejected code=" + grpcCode(err))
 	}
 	return sigs
 }
